@@ -387,6 +387,13 @@ func NewBundle(kind BundleKind, msgs []*ast.MsgNode) *Bundle {
 				parts[l], parts[r] = parts[r], parts[l]
 			}
 			parts = append([]soymsg.Part{soymsg.RawTextPart{Text: "[xx]"}}, parts...)
+			// a translation may mention a placeholder more than once
+			for _, p := range parts {
+				if ph, ok := p.(soymsg.PlaceholderPart); ok {
+					parts = append(parts, soymsg.RawTextPart{Text: " / "}, ph)
+					break
+				}
+			}
 		case BundlePartial:
 			// chosen by id, not by position: the catalogue must not depend on the order in which
 			// the harness happened to find the messages
